@@ -135,7 +135,8 @@ func TestC17(t *testing.T) {
 			c.a.Fleet = sim.FleetPlan{Split: rapid.IntRange(1, 4).Draw(rt, "split"), PageSize: rapid.SampledFrom([]int{1, 7, 50, 1000}).Draw(rt, "page"),
 				ReadyAfter: rapid.SampledFrom([]time.Duration{0, time.Second, 3 * time.Second, 5 * time.Second}).Draw(rt, "readyAfter"), // + stagger (<= 4 s) stays below the shortest time-out (10 s)
 				WithErrors: rapid.Bool().Draw(rt, "withErrors"), StaggerMod: rapid.SampledFrom([]int{0, 2, 3, 5}).Draw(rt, "stagger"),
-				ErrCode: rapid.SampledFrom(sim.FleetErrorCodes).Draw(rt, "errCode"), LateTail: rapid.SampledFrom([]int{0, 0, 1, 5, 50, 99}).Draw(rt, "lateTail")}
+				ErrCode: rapid.SampledFrom(sim.FleetErrorCodes).Draw(rt, "errCode"), LateTail: rapid.SampledFrom([]int{0, 0, 1, 5, 50, 99}).Draw(rt, "lateTail"),
+				ServeFrom: rapid.IntRange(0, 7).Draw(rt, "serveFrom")} // which of the requested (subnet, type) pools has the capacity
 			// some of the fleet's instances never come up (reclaimed, stopped by their own bootstrap, ...)
 			neverReady := 0
 			if fleet && d > 0 {
@@ -376,6 +377,8 @@ func runFleetFailure(rt *rapid.T, col interface{ Eval(int) }, size int, cfg clou
 	switch f.mode {
 	case "never-ready":
 		c.a.Fleet.NeverReady = 1 + f.attachNth%size
+	case "short-answer":
+		c.a.Fleet.Mode, c.a.Fleet.PartialNum = 3, f.attachNth
 	case "status-error":
 		faults = append(faults, sim.Fault{Kind: sim.AStatusPages, Nth: -1})
 	case "attach":
@@ -448,7 +451,7 @@ func judgeFleetFailure(size int, f fleetFailure, es []sim.Entry, fleetE *sim.Ent
 			return "C18:terminated-foreign-instance", "instance " + id + " was not acquired by this fleet request", false
 		}
 	}
-	if f.mode == "none" {
+	if f.mode == "none" || f.mode == "short-answer" {
 		// nothing was made to fail (the answer may carry errors next to a complete set of instances)
 		if err == nil && len(submitted) > 0 {
 			return "C18:success-with-terminations", "IncreaseSize returned nil but submitted instances for termination", false
@@ -487,6 +490,10 @@ func TestC18(t *testing.T) {
 				faultCode: rapid.SampledFrom([]string{"", "", "Throttling", "RequestLimitExceeded", "ValidationError", "ThrottlingException"}).Draw(rt, "faultCode"),
 				faultRuns: rapid.SampledFrom([]int{1, 1, 3, 5}).Draw(rt, "faultRuns")}
 			points := []fleetFailure{{"none", 0, -1}}
+			if size > 1 {
+				// an answer that lists fewer instances than asked for, next to errors: what was acquired is still acquired
+				points = append(points, fleetFailure{"short-answer", rapid.IntRange(1, size-1).Draw(rt, "shortAnswer"), -1})
+			}
 			for _, tn := range []int{-1, 0, 1, 2} {
 				points = append(points, fleetFailure{"never-ready", rapid.IntRange(0, size-1).Draw(rt, "neverReady"), tn})
 				points = append(points, fleetFailure{"status-error", 0, tn})
@@ -557,7 +564,10 @@ func TestC18Consecutive(t *testing.T) {
 				}
 				exited := false
 				var err error
-				d := int64(rapid.IntRange(1, 25).Draw(rt, "d"))
+				d := int64(rapid.IntRange(1, 45).Draw(rt, "d"))
+				if rapid.IntRange(0, 2).Draw(rt, "fullBatches") == 0 {
+					d = int64(rapid.SampledFrom([]int{20, 40, 60}).Draw(rt, "dBatches")) // goes out in full attach batches only
+				}
 				mark := c.j.Mark()
 				func() {
 					defer func() {
